@@ -118,7 +118,7 @@ Proof.
   destruct W as (Hc & Hn & Hb & Hz & Hd & Hl & Hp).
   unfold dec_sample, sample_bytes in *. cbn [app flat_map] in *. rewrite <- !app_assoc in *.
   rewrite (rd_app 8 0 [] (u64 c) _ eq_refl (N_to_le_bytes_length _ _) : rd 8 0 (u64 c ++ _) = _).
-  rewrite u64_rt by assumption. cbn [bind]. rewrite Hn, Hb. cbn [negb].
+  rewrite u64_rt by assumption. cbn [bind]. rewrite Hn, Hb, Hz. cbn [negb].
   assert (Hlen : (N.of_nat (length (u64 c ++ flat_map u64 (data ++ opt_list p) ++ rest)) <? 8 + 8 * c_floor c) = false).
   { apply N.ltb_ge. rewrite !app_length, flat_u64_length, app_length. unfold u64. rewrite N_to_le_bytes_length. lia. }
   rewrite Hlen. rewrite skipn_app_exact by apply N_to_le_bytes_length.
@@ -145,6 +145,7 @@ Proof.
   unfold dec_sample. destruct (rd 8 0 b) as [c0|] eqn:Ec; [|discriminate]. cbn [bind].
   destruct (c_negative c0) eqn:En; [discriminate|].
   destruct (c_below_2_32 c0) eqn:Eb; [|discriminate]. cbn [negb].
+  destruct (c_is_zero c0) eqn:Ez; [discriminate|].
   destruct (N.ltb_spec (N.of_nat (length b)) (8 + 8 * c_floor c0)) as [|Hlen]; [discriminate|].
   destruct (rd_entries (N.to_nat (c_floor c0)) (skipn 8 b)) as [d|] eqn:Ed; [|discriminate]. cbn [bind].
   apply rd_entries_some in Ed. destruct Ed as [Hld _].
